@@ -436,6 +436,25 @@ func checkGffWriter(c *Ctx, build *ssa.Function) {
 			if len(np) == 1 {
 				continue // the constant default line
 			}
+			// a default for an empty field ("3 " unless the record says otherwise) is the field or a constant
+			for k, pcs := range np {
+				pc := parseTerm(pcs)
+				if pc == nil || (pc.Op != "phi" && pc.Op != "anyof") {
+					continue
+				}
+				own, onlyConsts := false, true
+				for _, l := range phiLeaves(pc) {
+					switch {
+					case l.String() == meta("GffVersion"):
+						own = true
+					case l.Op != "const":
+						onlyConsts = false
+					}
+				}
+				if own && onlyConsts {
+					np[k] = meta("GffVersion")
+				}
+			}
 			stV, whyV = comparePieces(np, []string{`const["##gff-version "]`, meta("GffVersion"), `const["\n"]`})
 		case hasConst(ps, "##sequence-region"):
 			// "##sequence-region " name " " start " " end "\n"
